@@ -82,7 +82,7 @@ def _run(cmd, what):
 
 
 def _prune_cache(keep):
-    """Keep at most two repo hashes (the given one and the most recent other)."""
+    """Keep at most six tree hashes (the given one and the five most recently used others)."""
     if not os.path.isdir(CACHE):
         return
     ents = []
@@ -91,7 +91,7 @@ def _prune_cache(keep):
         if os.path.isdir(p) and len(e) == 16 and e != keep:
             ents.append((os.path.getmtime(p), p))
     ents.sort(reverse=True)
-    for _, p in ents[1:]:
+    for _, p in ents[5:]:
         shutil.rmtree(p, ignore_errors=True)
 
 
